@@ -30,6 +30,7 @@ def main():
     mod = importlib.import_module(f"harness.props.{pid.lower()}")
     ctx = Ctx(pid, tier, seed)
     exit_code = 0
+    core.cap_own_memory()
     try:
         if a.replay:
             rep = json.load(open(a.replay))
